@@ -48,17 +48,33 @@ type c15inv struct {
 	cltv      int32
 	hodl      bool
 	feat      string // subset of "tpPma": tlv, payaddr optional, payaddr Required, mpp optional, amp required
-	nkeys     int
+	keys      []c15key // circuit keys handed out for this invoice
 	idx       int
 	spont     bool // no invoice added up front (spontaneous keysend / AMP)
 	bogus     bool
 	storedPre lntypes.Preimage
 }
 
+// c15key is a full circuit key: (short channel id, per-channel htlc id).
+type c15key struct{ ch, id uint64 }
+
+func (k c15key) String() string { return fmt.Sprintf("%d.%d", k.ch, k.id) }
+
+func c15keyLess(a, b c15key) bool {
+	if a.ch != b.ch {
+		return a.ch < b.ch
+	}
+	return a.id < b.id
+}
+
+func c15keyOf(k invpkg.CircuitKey) c15key {
+	return c15key{k.ChanID.ToUint64(), k.HtlcID}
+}
+
 type c15op struct {
 	kind string // notify | settle | cancel | tick
 	hash lntypes.Hash
-	key  uint64
+	key  c15key
 	amt  uint64
 	exp  uint32
 	ht   int32
@@ -101,8 +117,14 @@ type c15 struct {
 	now    time.Time
 	hodl   chan interface{}
 	hashes []lntypes.Hash
-	subs   map[uint64]bool
+	subs   map[c15key]bool
 	R      int32
+
+	// circuit-key allocation of the case (generation time)
+	chans   []uint64
+	nextID  map[uint64]uint64
+	used    map[c15key]bool
+	allKeys []c15key
 	h0     int64
 	height int64
 }
@@ -120,10 +142,31 @@ func (c *c15) pick(n int) int { return c.rng.Intn(n) }
 
 func (c *c15) chance(pct int) bool { return c.rng.Intn(100) < pct }
 
-func (c *c15) ckey(id uint64) invpkg.CircuitKey {
+func (c *c15) ckey(k c15key) invpkg.CircuitKey {
 	return invpkg.CircuitKey{
-		ChanID: lnwire.NewShortChanIDFromInt(uint64(c.n)),
-		HtlcID: id,
+		ChanID: lnwire.NewShortChanIDFromInt(k.ch),
+		HtlcID: k.id,
+	}
+}
+
+// resetKeys starts the circuit-key universe of a case: 1-3 channels (ids
+// disjoint from every other case, the SQL store has a global UNIQUE (chan_id,
+// htlc_id)), each with its own htlc counter as in lnd (htlc ids are
+// per-channel counters, so different channels hand out the same ids).
+func (c *c15) resetKeys() {
+	nch := []int{1, 2, 2, 2, 3, 3, 3, 3}[c.pick(8)]
+	c.chans = nil
+	c.nextID = map[uint64]uint64{}
+	c.used = map[c15key]bool{}
+	c.allKeys = nil
+	base := []uint64{0, 0, 0, 1, 5, 4294967295}[c.pick(6)]
+	for j := 0; j < nch; j++ {
+		ch := uint64(c.n)*4 + uint64(j)
+		c.chans = append(c.chans, ch)
+		c.nextID[ch] = base
+		if c.chance(20) {
+			c.nextID[ch] = base + uint64(c.pick(3))
+		}
 	}
 }
 
@@ -343,13 +386,13 @@ func (c *c15) dumpOne(h lntypes.Hash) string {
 		hodl = 1
 	}
 	type kv struct {
-		k uint64
+		k c15key
 		s string
 	}
 	var hs []kv
 	for k, ht := range inv.Htlcs {
 		at := int64(ht.AcceptTime.Sub(testTime) / time.Second)
-		s := fmt.Sprintf("%d:%d:%d:%s:%d:%d:%d", k.HtlcID, uint64(ht.Amt),
+		s := fmt.Sprintf("%s:%d:%d:%s:%d:%d:%d", c15keyOf(k), uint64(ht.Amt),
 			uint64(ht.MppTotalAmt), c15hstate(ht.State), ht.Expiry,
 			int32(ht.AcceptHeight), at)
 		if ht.AMP != nil {
@@ -360,9 +403,9 @@ func (c *c15) dumpOne(h lntypes.Hash) string {
 			}
 			s += fmt.Sprintf(":%s:%s:%s", c15hx(sid[:4]), c15hx(ht.AMP.Hash[:]), p)
 		}
-		hs = append(hs, kv{k.HtlcID, s})
+		hs = append(hs, kv{c15keyOf(k), s})
 	}
-	sort.Slice(hs, func(i, j int) bool { return hs[i].k < hs[j].k })
+	sort.Slice(hs, func(i, j int) bool { return c15keyLess(hs[i].k, hs[j].k) })
 	var parts []string
 	for _, x := range hs {
 		parts = append(parts, x.s)
@@ -400,7 +443,7 @@ func (c *c15) dumpOne(h lntypes.Hash) string {
 // the canonical dump of every invoice hash known to the case.
 func (c *c15) observe() {
 	type m struct {
-		k uint64
+		k c15key
 		s string
 	}
 	var ms []m
@@ -409,10 +452,10 @@ func (c *c15) observe() {
 		case x := <-c.hodl:
 			r, ok := x.(invpkg.HtlcResolution)
 			if !ok {
-				ms = append(ms, m{0, fmt.Sprintf("other:%T", x)})
+				ms = append(ms, m{c15key{}, fmt.Sprintf("other:%T", x)})
 				continue
 			}
-			k := r.CircuitKey().HtlcID
+			k := c15keyOf(r.CircuitKey())
 			c.subs[k] = false
 			ms = append(ms, m{k, c15res(x)})
 			continue
@@ -420,9 +463,9 @@ func (c *c15) observe() {
 		}
 		break
 	}
-	sort.SliceStable(ms, func(i, j int) bool { return ms[i].k < ms[j].k })
+	sort.SliceStable(ms, func(i, j int) bool { return c15keyLess(ms[i].k, ms[j].k) })
 	for _, x := range ms {
-		c.pf("hodl k=%d => %s", x.k, x.s)
+		c.pf("hodl k=%s => %s", x.k, x.s)
 	}
 	for _, h := range c.hashes {
 		c.pf("inv h=%s => %s", c15hx(h[:]), c.dumpOne(h))
@@ -534,7 +577,7 @@ func (c *c15) doNotify(o *c15op) {
 		}
 	}()
 	c.addHash(o.hash)
-	c.pf("notify h=%s k=%d amt=%d exp=%d ht=%d mpp=%s amp=%s ks=%s path=%s tot=%d => %s",
+	c.pf("notify h=%s k=%s amt=%d exp=%d ht=%d mpp=%s amp=%s ks=%s path=%s tot=%d => %s",
 		c15hx(o.hash[:]), o.key, o.amt, o.exp, o.ht, mpp, ampS, ks, path, o.pathTot, res)
 	c.observe()
 }
@@ -570,8 +613,8 @@ func (c *c15) doCancel(o *c15op) {
 // overdue lists the circuit keys of accepted htlcs on open invoices whose hold
 // time has passed: exactly those have a pending auto-release timer that is now
 // due, so the registry's event loop is about to cancel them.
-func (c *c15) overdue() []uint64 {
-	var out []uint64
+func (c *c15) overdue() []c15key {
+	var out []c15key
 	for _, h := range c.hashes {
 		inv, err := c.reg.LookupInvoice(context.Background(), h)
 		if err != nil || inv.State != invpkg.ContractOpen {
@@ -582,7 +625,7 @@ func (c *c15) overdue() []uint64 {
 				continue
 			}
 			if !ht.AcceptTime.Add(c15Hold * time.Second).After(c.now) {
-				out = append(out, k.HtlcID)
+				out = append(out, c15keyOf(k))
 			}
 		}
 	}
@@ -757,10 +800,49 @@ func (c *c15) expiry(h int32, cltv int32, valid int) uint32 {
 	return uint32(e)
 }
 
-func (c *c15) newKey(iv *c15inv) uint64 {
-	k := uint64(iv.idx*16 + iv.nkeys%16)
-	iv.nkeys++
-	return k
+// newKey hands out a circuit key that is new in this case. Both components
+// vary, with deliberate partial collisions: (a) the htlc id of an earlier htlc
+// (of the same invoice, else of any invoice of the case) on ANOTHER channel;
+// (b) the channel of an earlier htlc of the same invoice with that channel's
+// next id; (c) a random channel with its next id.
+func (c *c15) newKey(iv *c15inv) c15key {
+	take := func(k c15key) bool {
+		if c.used[k] {
+			return false
+		}
+		c.used[k] = true
+		iv.keys = append(iv.keys, k)
+		c.allKeys = append(c.allKeys, k)
+		return true
+	}
+	x := c.pick(100)
+	if x < 45 && len(c.chans) > 1 {
+		src := iv.keys
+		if len(src) == 0 || c.chance(25) {
+			src = c.allKeys
+		}
+		if len(src) > 0 {
+			p := src[c.pick(len(src))]
+			off := c.pick(len(c.chans))
+			for j := range c.chans {
+				ch := c.chans[(off+j)%len(c.chans)]
+				if ch != p.ch && take(c15key{ch, p.id}) {
+					return c15key{ch, p.id}
+				}
+			}
+		}
+	}
+	ch := c.chans[c.pick(len(c.chans))]
+	if x < 70 && len(iv.keys) > 0 {
+		ch = iv.keys[c.pick(len(iv.keys))].ch
+	}
+	for {
+		k := c15key{ch, c.nextID[ch]}
+		c.nextID[ch]++
+		if take(k) {
+			return k
+		}
+	}
 }
 
 // split n>0 parts summing to total.
@@ -1040,6 +1122,35 @@ func (c *c15) genKeysend(idx int) (*c15inv, []*c15op) {
 // genAmpSet: one AMP htlc set towards iv (an AMP invoice, or a fresh pay addr
 // for a spontaneous AMP payment).
 func (c *c15) genAmpSet(iv *c15inv) []*c15op {
+	if c.chance(22) {
+		return c.genAmpRepay(iv)
+	}
+	return c.genAmpSetID(iv, c.rbytes())
+}
+
+// genAmpRepay: the same set id is paid twice (lnd lets a set id whose htlcs
+// are settled / canceled be used again): a second, independently generated
+// set (fresh root seed, same or another declared total, child indexes start
+// again at 0) under the set id of the first one, optionally separated by a
+// set timeout, followed by replays of the first set's htlcs.
+func (c *c15) genAmpRepay(iv *c15inv) []*c15op {
+	setID := c.rbytes()
+	first := c.genAmpSetID(iv, setID)
+	ops := append([]*c15op{}, first...)
+	if c.chance(25) {
+		ops = append(ops, &c15op{kind: "tick", dt: []int{30, 31, 29}[c.pick(3)]})
+	}
+	ops = append(ops, c.genAmpSetID(iv, setID)...)
+	for _, o := range first {
+		if c.chance(60) {
+			cp := *o
+			ops = append(ops, &cp)
+		}
+	}
+	return ops
+}
+
+func (c *c15) genAmpSetID(iv *c15inv, setID [32]byte) []*c15op {
 	v := iv.val
 	total := v
 	switch c.pick(8) {
@@ -1066,7 +1177,6 @@ func (c *c15) genAmpSet(iv *c15inv) []*c15op {
 		sum++
 	}
 	parts := c.split(sum, n)
-	setID := c.rbytes()
 	root := amp.Share(c.rbytes())
 	// shares xor to root
 	shares := make([]amp.Share, n)
@@ -1138,7 +1248,7 @@ func (c *c15) openCase(ks, ampOn, ksHold bool, extra string) *invpkg.InvoiceRegi
 	c.reg, c.clk, c.now = reg, clk, testTime
 	c.hodl = make(chan interface{}, 256)
 	c.hashes = nil
-	c.subs = map[uint64]bool{}
+	c.subs = map[c15key]bool{}
 
 	b := func(x bool) int {
 		if x {
@@ -1188,7 +1298,7 @@ func (c *c15) notifyRaw(o *c15op) (string, string) {
 			res = c15res(r)
 		}
 	}()
-	args := fmt.Sprintf("h=%s k=%d amt=%d exp=%d ht=%d mpp=%s amp=%s ks=%s path=none tot=0",
+	args := fmt.Sprintf("h=%s k=%s amt=%d exp=%d ht=%d mpp=%s amp=%s ks=%s path=none tot=0",
 		c15hx(o.hash[:]), o.key, o.amt, o.exp, o.ht, mpp, ampS, ks)
 	return args, res
 }
@@ -1230,6 +1340,7 @@ func (c *c15) settleQuiet() {
 //	pend kind=<scenario>           followed by the hodl messages and dumps
 func (c *c15) genConcCase() {
 	c.n++
+	c.resetKeys()
 	c.R = []int32{4, 4, 10, 3, 1}[c.pick(5)]
 	c.h0 = 100
 	c.height = 100
@@ -1355,6 +1466,7 @@ func (c *c15) genCase(tier string) {
 		return
 	}
 	c.n++
+	c.resetKeys()
 	c.R = []int32{4, 4, 10, 3, 40, 1, 0}[c.pick(7)]
 	ks := c.chance(40)
 	ampOn := c.chance(30)
@@ -1540,7 +1652,7 @@ func (c *c15) genCase(tier string) {
 
 	if c.chance(55) {
 		// replay sweep: every htlc notified so far once more, unchanged
-		done := map[uint64]bool{}
+		done := map[c15key]bool{}
 		for _, o := range seen {
 			if !done[o.key] {
 				done[o.key] = true
